@@ -327,11 +327,103 @@ T_TOK = {"": "none", "mkdir": "mkdir", "mkdir-with-children": "mkdirwc", "mkdir-
          "set_children": "setchildren", "set-children": "setchildren", "bogus": "bad"}
 
 
+def ro_addressings(mir):
+    """Every way to address a directory S without write authority over it:
+    (S, root, auth, path, class) with class root-ro (read cap of S itself), target-ro (the last link of the
+    path is a read-only link to S, the rest is writeable) or through-ro (S lies below such a link)."""
+    res = []
+    for S in range(len(mir)):
+        if mir[S][0] in ("md", "id"):
+            res.append((S, S, "r", [], "root-ro"))
+    for P in range(len(mir)):
+        if mir[P][0] != "md":
+            continue
+        for n, (X, rw) in sorted(mir[P][1].items()):
+            if mir[X][0] not in ("md", "id") or (rw and mir[X][0] == "md"):
+                continue
+            res.append((X, P, "w", [n], "target-ro"))
+            for n2, (Y, rw2) in sorted(mir[X][1].items()):
+                if mir[Y][0] in ("md", "id") and n2 != n:
+                    res.append((Y, P, "w", [n, n2], "through-ro"))
+    return res
+
+
+def writeable_dests(mir, exclude):
+    """to_dir= values naming a writeable directory other than `exclude`: by write cap, and by write cap + path"""
+    res = []
+    for D in range(len(mir)):
+        if mir[D][0] == "md" and D != exclude:
+            res.append((D, [D, "w", []]))
+    for Q in range(len(mir)):
+        if mir[Q][0] != "md":
+            continue
+        for q, (D, rw) in sorted(mir[Q][1].items()):
+            if rw and mir[D][0] == "md" and D != exclude:
+                res.append((D, [Q, "w", [q]]))
+    return res
+
+
+def classify(mir, root, auth, path, meth, t):
+    chain = ref_resolve(mir, root, auth, path)
+    root_ro = not chain[0][1]
+    through_ro = any(not w for (_, w) in chain[:len(path)]) if path else False
+    full = len(chain) == len(path) + 1
+    fk = mir[chain[-1][0]][0] if full else None
+    # the request operates on the addressed node itself (not on its parent) and that node is reached read-only
+    target_ro = bool(full and path and not chain[-1][1] and (
+        (meth == "POST" and fk in ("md", "id")) or
+        (fk == "mf" and ((meth == "POST" and t == "upload") or (meth == "PUT" and t == "")))))
+    cls = "root-ro" if root_ro else ("through-ro" if through_ro else ("target-ro" if target_ro else "rw"))
+    return chain, cls
+
+
+def gen_relink_focus(rng, W, mir):
+    """t=relink (to_dir= a *different writeable* directory, by cap or by cap/path) or t=rename of an existing
+    child (file / directory / mutable file in turn) of a directory addressed without write authority."""
+    cands = [c for c in ro_addressings(mir) if mir[c[0]][1]]
+    if rng.random() < 0.22:       # the same shapes with full authority: these must succeed (harness can tell the difference)
+        cands = [(S, S, "w", [], "rw") for S in range(len(mir)) if mir[S][0] == "md" and mir[S][1]]
+    if not cands:
+        return None
+    S, root, auth, path, cls = rng.choice(cands)
+    kinds = {}
+    for n, (a, rw) in sorted(mir[S][1].items()):
+        kinds.setdefault(mir[a][0], []).append(n)
+    name = rng.choice(kinds[rng.choice(sorted(kinds))])
+    r = {"root": root, "auth": auth, "path": list(path), "meth": "POST", "repl": "yes", "name": name, "focus": True}
+    dests = writeable_dests(mir, S)
+    if dests and rng.random() < 0.8:
+        D, todir = rng.choice(dests)
+        r["t"] = "relink"
+        r["todir"] = todir
+        free = [name_s(i) for i in range(NAMES) if name_s(i) not in mir[D][1]]
+        if rng.random() < 0.7 and free:
+            r["to"] = rng.choice(free)
+        elif rng.random() < 0.5:
+            r["to"] = name_s(rng.randrange(NAMES))
+    else:
+        r["t"] = rng.choice(["rename", "relink"])
+        free = [name_s(i) for i in range(NAMES) if name_s(i) not in mir[S][1]]
+        r["to"] = rng.choice(free) if free else name_s(rng.randrange(NAMES))
+    chain, c2 = classify(mir, root, auth, path, "POST", r["t"])
+    r["cls"] = c2
+    r["ro"] = c2 != "rw"
+    r["root_ro"] = c2 == "root-ro"
+    return r
+
+
 def gen_request(rng, W, mir, want):
-    """A random modifying request as a dict (JSON-serialisable).  want ∈ root-ro | through-ro | rw."""
+    """A random modifying request as a dict (JSON-serialisable).  want ∈ root-ro | through-ro | target-ro | rw."""
     nobj = len(mir)
     dirs = [i for i in range(nobj) if mir[i][0] in ("md", "id")]
     mdirs = [i for i in dirs if mir[i][0] == "md"]
+    forced = None
+    if want == "target-ro":
+        cands = [c for c in ro_addressings(mir) if c[4] == "target-ro"]
+        if cands:
+            forced = rng.choice(cands)
+        else:
+            want = "through-ro"
     for _attempt in range(60):
         if want == "root-ro":
             root = rng.choice(dirs) if rng.random() < 0.75 else rng.randrange(nobj)
@@ -375,6 +467,11 @@ def gen_request(rng, W, mir, want):
         if cls == want:
             break
     meth = rng.choice(["PUT", "PUT", "POST", "POST", "POST", "DELETE"])
+    if forced is not None:
+        _, root, auth, path, _ = forced
+        path = list(path)
+        meth = "POST"
+        chain = ref_resolve(mir, root, auth, path)
     if meth == "PUT":
         t = rng.choice(["", "", "", "uri", "mkdir", "bogus"])
     elif meth == "POST":
@@ -389,7 +486,8 @@ def gen_request(rng, W, mir, want):
         if tent and rng.random() < 0.6:
             return rng.choice(sorted(tent))
         return name_s(rng.randrange(NAMES))
-    r = {"root": root, "auth": auth, "path": path, "meth": meth, "t": t, "ro": bool(is_ro), "root_ro": bool(root_ro)}
+    _, cls = classify(mir, root, auth, path, meth, t)
+    r = {"root": root, "auth": auth, "path": path, "meth": meth, "t": t, "ro": cls != "rw", "root_ro": cls == "root-ro", "cls": cls}
     r["repl"] = rng.choice(["yes"] * 5 + ["no", "only"])
     if t in ("mkdir", "mkdir-with-children", "mkdir-immutable") and meth == "POST" and rng.random() < 0.7:
         r["name"] = pick_name()
@@ -435,6 +533,8 @@ def gen_request(rng, W, mir, want):
         r["fmt"] = rng.choice(["", "", "sdmf", "mdmf"])
         if meth == "PUT" and rng.random() < 0.12:
             r["off"] = True
+    _, cls = classify(mir, root, auth, path, meth, r["t"])
+    r.update(ro=cls != "rw", root_ro=cls == "root-ro", cls=cls)
     return r
 
 
@@ -558,6 +658,11 @@ def definitely_modifying(r, mir):
         return tent is not None and "name" in r and r["name"] not in tent
     if meth == "POST" and t == "rename":
         return tent is not None and r.get("name") in tent and "to" in r and r["to"] != r["name"] and r["to"] not in tent
+    if meth == "POST" and t == "relink" and "todir" in r:
+        dch = ref_resolve(mir, r["todir"][0], r["todir"][1], r["todir"][2])
+        if len(dch) != len(r["todir"][2]) + 1 or mir[dch[-1][0]][0] != "md" or dch[-1][0] == tgt:
+            return False
+        return tent is not None and r.get("name") in tent and r.get("to", r["name"]) not in mir[dch[-1][0]][1]
     return False
 
 
@@ -609,11 +714,13 @@ def run_scenario(ctx, seed, nreq, fixed_model, stop_at=None):
             mir = W.mirror()
             lines, cases, impl = [], [], []
             for idx in range(nreq):
-                want = rng.choice(["root-ro", "root-ro", "through-ro", "through-ro", "rw", "rw", "rw"])
+                want = rng.choice(["root-ro", "root-ro", "through-ro", "through-ro", "target-ro", "rw", "rw", "rw"])
                 if rng.random() < 0.2:
                     do_get(ctx, rng, rt, g, web, W, mir, seed, idx, lines, cases, impl)
                     continue
-                r = gen_request(rng, W, mir, want)
+                r = gen_relink_focus(rng, W, mir) if rng.random() < 0.14 else None
+                if r is None:
+                    r = gen_request(rng, W, mir, want)
                 nold = len(mir)
                 meth, url, body, ctype = request_bytes(W, r, idx)
                 line = model_line(fixed_model, W, mir, r)
@@ -622,23 +729,58 @@ def run_scenario(ctx, seed, nreq, fixed_model, stop_at=None):
                 case = {"scenario": seed, "index": idx, "request": r, "status": st, "line": line}
                 if not finished:
                     ctx.disagree("the request never completed (the table predicts an answer)", case, "no response", "response")
-                auth_class = "root-ro" if r["root_ro"] else ("through-ro" if r["ro"] else "rw")
+                auth_class = r.get("cls") or ("root-ro" if r["root_ro"] else ("through-ro" if r["ro"] else "rw"))
                 ctx.count("req:%s:%s %s" % (auth_class, r["meth"], r["t"] or "-"))
                 ctx.count("status:%s:%s" % (auth_class, status_class(st)))
+                if r.get("focus"):
+                    ctx.count("relink-focus:%s:%s" % (auth_class, "to_dir-by-%s" % ("path" if r["todir"][2] else "cap") if "todir" in r else "same-dir"))
+                # the whole logical grid after the request: every directory of the tree (also those named only in
+                # to_dir= / uri= / children parameters, and every other registered one) and every mutable file's contents
+                mir2 = W.mirror()
                 if r["ro"]:
-                    # ------------- monitor (from the statement)
+                    # ------------- monitor (from the statement): read-only authority => refused AND nothing changed,
+                    # whatever the status code says
                     after = snapshot(g)
-                    if after != before:
+                    tl = r["t"] or r["meth"]
+                    diffs = [i for i in range(len(mir)) if mir2[i] != mir[i]]
+                    if diffs or len(mir2) != len(mir):
+                        chain = ref_resolve(mir, r["root"], r["auth"], r["path"])
+                        addressed = chain[-1][0] if len(chain) == len(r["path"]) + 1 else None
+                        dest = None
+                        if "todir" in r:
+                            dch = ref_resolve(mir, r["todir"][0], r["todir"][1], r["todir"][2])
+                            dest = dch[-1][0] if len(dch) == len(r["todir"][2]) + 1 else None
+                        wheres = []
+                        for i in diffs:
+                            if i == dest:
+                                wheres.append("to_dir")
+                            elif i == addressed:
+                                wheres.append("addressed-dir" if mir[i][0] != "mf" else "addressed-file")
+                            elif mir[i][0] == "mf":
+                                wheres.append("mutable-file")
+                            else:
+                                wheres.append("other-dir")
+                        if not wheres:
+                            wheres = ["new-object"]
+                        detail = []
+                        for i in diffs[:4]:
+                            b, a2 = mir[i], mir2[i]
+                            detail.append({"object": i, "kind": b[0],
+                                           "links_added": sorted(n for n in a2[1] if n not in b[1] or a2[1][n] != b[1][n]),
+                                           "links_removed": sorted(n for n in b[1] if n not in a2[1]),
+                                           "content_changed": b[2] != a2[2]})
+                        ctx.violation("a %s %s request made with read-only authority (%s) was answered %s but changed the grid: %s" % (
+                                      r["meth"], "t=" + r["t"] if r["t"] else "", auth_class, st, detail),
+                                      dict(case, changed=detail), "readonly-request-changed-grid:%s:%s" % (tl, "+".join(sorted(set(wheres)))))
+                    elif after != before:
                         added = sorted(set(after) - set(before))
                         changed = sorted(k for k in before if k in after and after[k] != before[k])
                         gone = sorted(set(before) - set(after))
-                        fmtm = bool(r.get("fmt"))
-                        sig = "grid-changed-through-readonly:%s:%s:%s" % (
-                            r["meth"], r["t"] or "-", "mutable-format-upload" if fmtm and not changed and not gone else
-                            ("new-shares" if not changed and not gone else "shares-modified"))
-                        ctx.violation("a request addressed through a read-only/verify cap or through a read-only directory changed the "
-                                      "grid (status %s): %d new share files, %d modified, %d removed" % (st, len(added), len(changed), len(gone)),
-                                      dict(case, added=added[:4], changed=changed[:4]), sig)
+                        where = ("mutable-format-upload" if r.get("fmt") and not changed and not gone else
+                                 ("new-shares" if not changed and not gone else "shares-modified"))
+                        ctx.violation("a request made with read-only authority (%s) changed the share files on the storage servers "
+                                      "(status %s): %d new share files, %d modified, %d removed" % (auth_class, st, len(added), len(changed), len(gone)),
+                                      dict(case, added=added[:4], changed=changed[:4]), "readonly-request-changed-grid:%s:%s" % (tl, where))
                     if st is not None and 200 <= st < 400 and definitely_modifying(r, mir):
                         ctx.violation("a modifying request addressed through a read-only path was answered %s instead of being refused" % st,
                                       case, "modifying-request-accepted-through-readonly:%s:%s" % (r["meth"], r["t"] or "-"))
@@ -646,7 +788,8 @@ def run_scenario(ctx, seed, nreq, fixed_model, stop_at=None):
                     if leaked:     # (the request's own root cap echoed back is the client's, not a leak)
                         ctx.violation("the response to a request made through a read-only path contains a write cap",
                                       dict(case, objects=leaked), "writecap-in-readonly-response:%s:%s" % (r["meth"], r["t"] or "-"))
-                    ctx.case(("ro", auth_class, r["meth"], r["t"], status_class(st), len(r["path"]), r["repl"], bool(r.get("fmt"))))
+                    ctx.case(("ro", auth_class, r["meth"], r["t"], status_class(st), len(r["path"]), r["repl"], bool(r.get("fmt")),
+                              "todir" in r, bool(r.get("todir", [0, 0, 0])[2])))
                 else:
                     ctx.case(("rw", r["meth"], r["t"], status_class(st), len(r["path"]), r["repl"], bool(r.get("fmt"))))
                     if st is not None and 200 <= st < 400:
@@ -654,10 +797,6 @@ def run_scenario(ctx, seed, nreq, fixed_model, stop_at=None):
                     else:
                         ctx.count("refused-through-write-cap")
                 # ------------- observable for the correspondence: status + resulting tree
-                if st is not None and 200 <= st < 400 or not r["ro"]:
-                    mir2 = W.mirror()
-                else:
-                    mir2 = mir
                 impl.append("%s %r" % (status_class(st), canon_from_mirror(mir2, nold, mir)))
                 lines.append(line)
                 cases.append(dict(case, nold=nold, kind="serve"))
@@ -756,10 +895,12 @@ def run(ctx):
     if ctx.replay and isinstance(ctx.replay.get("case"), dict) and "scenario" in ctx.replay["case"]:
         plan = [(ctx.replay["case"]["scenario"], 60)]
     else:
-        nscen = ctx.budget(14, 150)
+        nscen = ctx.budget(8, 150)
         plan = [(ctx.rng.randrange(1 << 30), 60) for _ in range(nscen)]
     all_lines, all_cases, all_impl = [], [], []
     for seed, nreq in plan:
+        if len(ctx.violations) >= 50:
+            break          # the report is capped at 50 anyway
         lines, cases, impl = run_scenario(ctx, seed, nreq, fixed_model)
         all_lines += lines
         all_cases += cases
